@@ -21,6 +21,7 @@ Arr(l) == [t |-> "arr", l |-> l]
 Pseq(l, r, o) == [t |-> "seq", l |-> l, r |-> r, o |-> o]
 Pser(l, r, o) == [t |-> "ser", l |-> l, r |-> r, o |-> o]
 Place(l, r, o) == [t |-> "place", l |-> l, r |-> r, o |-> o]
+Placep(l, r, o) == [t |-> "placep", l |-> l, r |-> r, o |-> o]
 Pn(p, r) == [t |-> "pn", p |-> p, r |-> r]
 Plen(p, k) == [t |-> "len", p |-> p, k |-> k]
 Pdrop(p, k) == [t |-> "drop", p |-> p, k |-> k]
@@ -79,6 +80,7 @@ Level(C, Ls, PLs, rich) ==
     IN  {Pseq(l, r, o) : l \in Ls, r \in Reps, o \in Offs}
    \cup {Pser(l, r, o) : l \in Ls, r \in (IF rich THEN {0, 1, 2, 4, INF} ELSE {4, INF}), o \in (IF rich THEN {0, 1} ELSE {1})}
    \cup {Place(l, r, o) : l \in PLs, r \in (IF rich THEN {1, 2, 3, INF} ELSE {3}), o \in (IF rich THEN {0, 1} ELSE {1})}
+   \cup {Placep(l, r, o) : l \in Ls, r \in (IF rich THEN {0, 1, 2, 3, INF} ELSE {3, INF}), o \in (IF rich THEN {0, 1} ELSE {1})}
    \cup {Pn(p, r) : p \in C, r \in Reps}
    \cup {Plen(p, k) : p \in C, k \in Cnt}
    \cup {Pdrop(p, k) : p \in C, k \in Cnt}
@@ -137,10 +139,12 @@ ConstTolInt == {PconstT(Pseq(l, 1, 0), s, tl) : l \in ConstLists, s \in {21, 22,
                \cup {PconstT(Pseq(<<I(3), I(8)>>, INF, 0), s, tl) : s \in {40, 45}, tl \in {2, 4, 8}}
                \cup {PconstT(Up, s, tl) : s \in {9, 10}, tl \in {0, 2, 4}}
 ConstTol == ConstTolInt \cup {Sc(8, p) : p \in ConstTolInt} \cup {Sc(64, Pdrop(p, 1)) : p \in ConstTolInt}
+PlacepMix == {Placep(<<a, b>>, r, o) : a \in {Pseq(<<I(1), I(2), I(3)>>, 1, 0), Plen(Up, 1), I(7)},
+                                         b \in {Pseq(<<I(5)>>, 1, 0), Pseq(<<I(5), I(6)>>, 2, 0), Pn(Plen(I(4), 2), 1)}, r \in {2, 4, INF}, o \in {0, 1}}
 Defd(X) == {p \in X : D(p, NV).ok}
 Exprs == CASE Mode = "d1" -> Defd(Depth1)
-           [] Mode = "quick" -> Defd(Depth1 \cup Depth2(Defd(Core1)) \cup Seeded \cup ConstTol)
-           [] Mode = "thorough" -> Defd(Depth1 \cup Depth2(Defd(Mid1)) \cup SeededCtx \cup Depth2(Defd(Depth2(Tiny3))) \cup ConstTol)
+           [] Mode = "quick" -> Defd(Depth1 \cup Depth2(Defd(Core1)) \cup Seeded \cup ConstTol \cup PlacepMix)
+           [] Mode = "thorough" -> Defd(Depth1 \cup Depth2(Defd(Mid1)) \cup SeededCtx \cup Depth2(Defd(Depth2(Tiny3))) \cup ConstTol \cup PlacepMix)
            [] Mode = "d3" -> Defd(Depth2(Defd(Depth2(Tiny1))))
            [] Mode = "consttol" -> Defd(ConstTol)
            [] Mode = "tiny" -> Defd(Tiny1 \cup {Pseed(I(3), Prand(<<I(5), I(6), I(7)>>, 2), Tape3)})
@@ -175,8 +179,8 @@ Laws(p) == /\ LawPrefix(p) /\ LawSeq1(p) /\ LawPn2(p) /\ LawLenPrefix(p) /\ LawS
            /\ LawClumpFlatten(p) /\ LawConstSum(p) /\ LawConstTol(p) /\ LawTuple1(p) /\ LawShortest(p)
 
 (* ---- stream machine ---- *)
-VARIABLES p, picked, todo, pos, hist, ret, fin
-vars == <<p, picked, todo, pos, hist, ret, fin>>
+VARIABLES p, picked, todo, pos, hist, ret, fin, who
+vars == <<p, picked, todo, pos, hist, ret, fin, who>>
 Streams == 1..NS
 NoStreams == [i \in Streams |-> 0 - 1]
 NoHist == [i \in Streams |-> <<>>]
@@ -188,16 +192,17 @@ ExprSeq == TLCGet(7)
 \* worker completes an action it prints <<"ACT", name>>; props/C13.py requires every action name to appear
 Mark(k, name) == IF TLCGet(k) = 0 THEN PrintT(<<"ACT", name>>) /\ TLCSet(k, 1) ELSE TRUE
 Init == /\ todo \in 1..NB /\ p = I(0) /\ picked = FALSE /\ pos = NoStreams /\ hist = NoHist /\ ret = R("none", <<>>)
-        /\ fin = {}     \* streams that have signalled their end (asking them again is not specified: not modelled)
+        /\ who = 0      \* the stream the last operation was applied to (read by the replay on the real code)
+        /\ fin = {}     \* streams that have signalled their end; asked again they signal it again (OpNext at the end)
 \* take the next pattern expression; all streams of the previous one are forgotten
 Pick == /\ todo <= Len(ExprSeq) /\ p' = ExprSeq[todo] /\ todo' = todo + NB /\ picked' = TRUE
-        /\ pos' = NoStreams /\ hist' = NoHist /\ ret' = R("none", <<>>) /\ fin' = {} /\ Mark(10, "Pick")
-Do(i, r, h) == /\ pos' = [pos EXCEPT ![i] = r.pos] /\ ret' = r.ret /\ hist' = [hist EXCEPT ![i] = h] /\ UNCHANGED <<p, picked, todo>>
+        /\ pos' = NoStreams /\ hist' = NoHist /\ ret' = R("none", <<>>) /\ fin' = {} /\ who' = 0 /\ Mark(10, "Pick")
+Do(i, r, h) == /\ who' = i /\ pos' = [pos EXCEPT ![i] = r.pos] /\ ret' = r.ret /\ hist' = [hist EXCEPT ![i] = h] /\ UNCHANGED <<p, picked, todo>>
                /\ fin' = IF r.ret.k \in {"stop", "seqstop", "all"} THEN fin \cup {i} ELSE IF r.ret.k = "none" THEN fin \ {i} ELSE fin
 New(i) == picked /\ pos[i] = 0 - 1 /\ Do(i, [pos |-> 0, ret |-> R("none", <<>>)], <<>>) /\ Mark(11, "New")
-NextVal(i) == picked /\ i \notin fin /\ pos[i] >= 0 /\ pos[i] < NV /\ LET r == OpNext(D(p, NV), pos[i]) IN Do(i, r, hist[i] \o r.ret.v) /\ Mark(12, "NextVal")
-TakeN(i) == picked /\ i \notin fin /\ pos[i] >= 0 /\ \E n \in 2..3 : pos[i] + n <= NV /\ LET r == OpTake(D(p, NV), pos[i], n) IN Do(i, r, hist[i] \o r.ret.v) /\ Mark(13, "TakeN")
-AllOf(i) == picked /\ i \notin fin /\ pos[i] >= 0 /\ Ended(D(p, NV), NV) /\ LET r == OpAll(D(p, NV), pos[i]) IN Do(i, [pos |-> r.pos, ret |-> R("all", r.ret.v)], hist[i] \o r.ret.v) /\ Mark(14, "AllOf")
+NextVal(i) == picked /\ pos[i] >= 0 /\ pos[i] < NV /\ LET r == OpNext(D(p, NV), pos[i]) IN Do(i, r, hist[i] \o r.ret.v) /\ Mark(12, "NextVal")
+TakeN(i) == picked /\ pos[i] >= 0 /\ \E n \in 2..3 : pos[i] + n <= NV /\ LET r == OpTake(D(p, NV), pos[i], n) IN Do(i, r, hist[i] \o r.ret.v) /\ Mark(13, "TakeN")
+AllOf(i) == picked /\ pos[i] >= 0 /\ Ended(D(p, NV), NV) /\ LET r == OpAll(D(p, NV), pos[i]) IN Do(i, [pos |-> r.pos, ret |-> R("all", r.ret.v)], hist[i] \o r.ret.v) /\ Mark(14, "AllOf")
 Reset(i) == picked /\ pos[i] > 0 /\ Do(i, OpReset(D(p, NV), pos[i]), <<>>) /\ Mark(15, "Reset")
 Next == Pick \/ \E i \in Streams : New(i) \/ NextVal(i) \/ TakeN(i) \/ AllOf(i) \/ Reset(i)
 Spec == Init /\ [][Next]_vars
